@@ -126,12 +126,23 @@ def _dqn_common(name, sc, mod, train, extra_kwargs, uses_target, per=False, has_
         import jax.numpy as jnp
 
         names["linear_schedule"] = lambda total, *a, **k: jnp.ones(int(total)) * eps
+    # update structure: DQN trains at every step with step > batch_size; the others additionally need
+    # step >= learning_starts, train when step % update_frequency == 0 and hard-copy the target when
+    # step % target_update_frequency == 0 (the copy needs no batch)
+    first = max(sc["batch"] + 1, sc["warm"] if has_warm else 0)
+    if uses_target:
+        _rules = [dict(comps=["q"], counter="step", mod=kwargs["update_frequency"], rem=0, after=first),
+                  dict(comps=["q_target"], counter="step", mod=kwargs["target_update_frequency"], rem=0, after=first, needs_sample=False)]
+    else:
+        _rules = [dict(comps=["q"], counter="always", after=first)]
     with interpose(mod, **names):
         res, err = guarded(lambda: train(q_net, env, buf, opt, **kwargs))
     # documented warm-up: DQN trains once the buffer holds more than one batch; the others document learning_starts
-    cfg = base_cfg(name, sc, warmlearn=sc.get("warmlearn_doc", -1), warmact=sc["warm"] if has_warm else -1, explore_only_in_warmup=False,
+    # documented warm-up: Nature-DQN / DDQN / PER document "learning starts after learning_starts random steps";
+    # DQN has no such parameter (it trains once more than one batch is stored - not judged)
+    cfg = base_cfg(name, sc, warmlearn=sc["warm"] if has_warm else -1, warmact=sc["warm"] if has_warm else -1, explore_only_in_warmup=False,
                    policy_probe=True, ret_applicable=True, trained=["q"], targets=["q_target"] if uses_target else [], eplimit=sc.get("eplimit", 0) if has_limit else 0,
-                   epsilon4=-1 if eps is None else int(eps * 4), rules=sc.get("rules", []))
+                   epsilon4=-1 if eps is None else int(eps * 4), rules=_rules)
     ret = None if res is None else getattr(res, "global_step", None)
     return finish(rec, name, sc, cfg, returned=ret, final=final_digests(q=q_net, q_target=tgt), error=err)
 
